@@ -1,3 +1,4 @@
+import Gtree.Lemmas.SourceRefines
 import Gtree.Lemmas.Validate
 import Gtree.Lemmas.MkdirCounts
 /-
@@ -87,4 +88,13 @@ theorem C09_counts_are_created (f : Fmt) (exts : List Bytes) (ts : List Bytes) (
   have hin : e ∈ pathsOf exts ts roots := (pathsOf_mem_split exts ts roots e).mpr ⟨t, ht, he⟩
   exact ⟨habs e hin, by simpa [kindOfFlag] using hex.nodes e hin⟩
 
+end Gtree
+
+namespace Gtree
+/-- Tie to the source: which nodes are regular files is decided by `fileConsiderer.isFile` (file_considerer.go,
+    translated on this run), which is the model's `isFileNode`: no children, and the name ends with a configured
+    extension. -/
+theorem C09_is_file_is_the_source (exts : List Bytes) (h : Nat) (n : Bytes) (ks : List T) :
+    Src.fileConsiderer.isFile ⟨exts⟩ (toNode h (.mk n ks)) = isFileNode exts n (!ks.isEmpty) :=
+  isFile_src exts h n ks
 end Gtree
